@@ -235,14 +235,24 @@ def eval_cases(name, header, defs, exprs, workdir, timeout=COQC_TIMEOUT, shard=4
         s, n, fn = t
         rc, out = coqc(fn, timeout=timeout, cwd=workdir)
         return s, n, fn, rc, out
-    bad, errors = [], []
+    bad, errors, again = [], [], []
+    pat = r"=\s*\((\d+)(?:%nat)?,\s*\[([^\]]*)\]\)"
     with ThreadPoolExecutor(max_workers=NPROC) as ex:
         for s, n, fn, rc, out in ex.map(one, files):
-            m = re.search(r"=\s*\((\d+)(?:%nat)?,\s*\[([^\]]*)\]\)", out.replace("\n", " "))
+            m = re.search(pat, out.replace("\n", " "))
             if rc != 0 or not m or int(m.group(1)) != n:
-                errors.append((fn, out[-3000:]))
+                again.append((s, n, fn, out))
                 continue
             bad += [s + int(x) for x in re.findall(r"\d+", m.group(2))]
+    # a shard that did not come back (typically: the per-file time limit on a loaded machine) is evaluated once more, alone, with three
+    # times the limit, before it is reported as an obligation that does not check
+    for s, n, fn, out0 in again:
+        rc, out = coqc(fn, timeout=3 * timeout, cwd=workdir)
+        m = re.search(pat, out.replace("\n", " "))
+        if rc != 0 or not m or int(m.group(1)) != n:
+            errors.append((fn, (out or out0)[-3000:]))
+            continue
+        bad += [s + int(x) for x in re.findall(r"\d+", m.group(2))]
     for s, n, fn in files:
         for ext in (".vo", ".vok", ".vos", ".glob"):
             try:
